@@ -267,7 +267,7 @@ func c11KScenarios(env *mc.Env) []c11KScenario {
 		if n == 3 {
 			// three pods under two tasks of different kind: reduced contribution alphabets
 			cr = []c11KPod{{{0, 0}, {0, 0}}, {{1, 0}, {0, 0}}, {{0, 0}, {2, 0}}, {{1, 0}, {2, 0}}}
-			r2 = []c11KPod{{{0, 0}, {0, 0}}, {{0, 0}, {1, 0}}, {{0, 0}, {0, 1}}, {{0, 0}, {2, 1}}}
+			r2 = []c11KPod{{{0, 0}, {1, 0}}, {{0, 0}, {0, 1}}, {{0, 0}, {2, 1}}}
 		}
 		s = append(s, c11KScenario{name: fmt.Sprintf("2task-used+request-n%d", n), n: n, alpha: cr, tasks: []c11KTmpl{U, Q}})
 		s = append(s, c11KScenario{name: fmt.Sprintf("2task-request+used-n%d", n), n: n, alpha: cr, tasks: []c11KTmpl{Q, U}})
